@@ -246,6 +246,17 @@ open Hw.XmlTree in
 theorem C05_tree_roundtrip (t : XmlTree.Tree) (hv : XmlTree.TreeValid { root := true } t = true) :
     XmlTree.importTree (XmlTree.exportTree true t) = .ok (XmlTree.normTree t) := XmlTree.importTree_exportTree t hv
 
+/-- P0 (tree level, start tags as bytes).  The same round trip with the attribute list of EVERY element of the export (objects,
+    infos, page types, userdata) rendered to bytes by the nolibxml exporter (`new_prop`: ` name="escaped value"`) and read back
+    by the nolibxml `next_attr` loop (`rescan`); nesting and text content stay tokens -/
+theorem C05_tree_roundtrip_start_tags_as_bytes (t : XmlTree.Tree) (hv : XmlTree.TreeValid { root := true } t = true) :
+    XmlTree.importTree (XmlTree.rescan (XmlTree.exportTree true t)) = .ok (XmlTree.normTree t) :=
+  XmlTree.importTree_rescan_exportTree t hv
+
+/-- every attribute of every element the tree exporter produces has a name over `[a-z_]` and a NUL-free value -/
+theorem C05_tree_export_wellformed (c : XmlObj.Ctx) (t : XmlTree.Tree) (hv : XmlTree.TreeValid c t = true) :
+    XmlTree.ElemOk (XmlTree.exportTree c.root t) := XmlTree.exportTree_ok c t hv
+
 /-- the same for a subtree in any context (parent type, parent with or without sets) -/
 theorem C05_subtree_roundtrip (c : XmlObj.Ctx) (t : XmlTree.Tree) (hv : XmlTree.TreeValid c t = true) :
     XmlTree.importObj c (XmlTree.exportTree c.root t) = .ok (XmlTree.normTree t) := XmlTree.importObj_exportTree c t hv
